@@ -13,6 +13,10 @@ ENGINES = {
                     files=["gme_test.go"], instrument={"gcp_multiendpoint.go": ["-yield"]}, kind="concurrent GCPMultiEndpoint workload over bufconn (race detector)"),
     "streamrace": dict(module="grpcgcp", pkg=".", pkgname="grpcgcp", pkgmarker="grpcgcp.", harness="grpcgcp",
                        files=["stream_test.go", "poolsim_test.go"], instrument={"gcp_interceptor.go": ["-yield"], "gcp_balancer.go": ["-clock"], "gcp_picker.go": ["-clock"]}, kind="concurrent stream wrapper workload (race detector)"),
+    "poollin": dict(module="grpcgcp", pkg=".", pkgname="grpcgcp", pkgmarker="grpcgcp.", harness="grpcgcp",
+                    files=["lin_test.go", "stress_test.go", "poolsim_test.go"], instrument={"gcp_balancer.go": ["-yield"], "gcp_picker.go": ["-yield"]},
+                    require=["github.com/anishathalye/porcupine v1.3.0"],
+                    kind="recorded client-boundary histories of binds/unbinds/keyed picks checked for linearizability with porcupine"),
     "mesim": dict(module="grpcgcp", pkg="multiendpoint", pkgname="multiendpoint", pkgmarker="multiendpoint.", harness="multiendpoint",
                   files=["mesim_test.go"], kind="sequential virtual-clock simulation of MultiEndpoint vs reference state machine"),
     "keys": dict(module="grpcgcp", pkg=".", pkgname="grpcgcp", pkgmarker="grpcgcp.", harness="grpcgcp",
@@ -176,6 +180,10 @@ def stress_stage(prop_essential):
     return dict(name="poolstress", engine="stress", test="TestVerifPoolStress", batches=dict(quick=6, thorough=16),
                 essential=prop_essential, timeout=dict(quick=900, thorough=7200))
 
+PROPS["C01"]["stages"].append(dict(name="poollin", engine="poollin", test="TestVerifPoolLin", batches=dict(quick=8, thorough=16),
+                                  essential={"C01": ["C01.lin-history", "C01.lin-binds", "C01.lin-unbinds", "C01.lin-reads"]}, timeout=dict(quick=900, thorough=7200)))
+PROPS["C01"]["rule"] += "; poollin stage: concurrent histories (3-8 goroutines, 1-3 shared keys, 2-4 READY channels) checked by porcupine, partitioned by key; distinct = history parameters and index"
+PROPS["C01"]["assumptions"] = PROPS["C01"]["assumptions"] + ["poollin stage: per-key register model (bind = write-if-absent, unbind = clear, keyed pick = read); porcupine timeouts are inconclusive"]
 PROPS["C02"]["stages"].append(stress_stage({"C02": ["C02.stress-quiescent-zero", "stress.placed"]}))
 PROPS["C03"]["stages"].append(stress_stage({"C03": ["C03.toctou-grow", "C03.stress-max"]}))
 PROPS["C09"]["stages"].append(stress_stage({"C09": ["C09.stress-exact", "C09.stress-bind-picks"]}))
